@@ -147,6 +147,56 @@ def timer_convs(rng, tier):
     return out
 
 
+class HoldPerSession:
+    """consecutive sessions on one peer object (the outbound FSM object is reused): the hold time in force is negotiated
+    afresh for every session, min(local, received in that session's OPEN)"""
+    no_model = True
+
+    def __init__(self, sid, direction, local, remote_holds):
+        self.sid, self.direction, self.local, self.remote_holds = sid, direction, local, remote_holds
+        self.tag = "hold-per-session.%s.%d.%s" % (direction, local, "-".join(map(str, remote_holds)))
+        self.remote_id = 0x0A000002
+
+    def scenario(self):
+        st = []
+        ka = S.frame(S.KEEPALIVE).hex()
+        for k, rh in enumerate(self.remote_holds):
+            c = "c%d" % (k + 1)
+            st += [["dial", c]] if self.direction == "in" else [["accept", c, 2500]]
+            st += [["recv", c, 1, 1500], ["send", c, S.frame(S.OPEN, S.open_body(65000, hold=rh)).hex(), 0], ["send", c, ka, 0],
+                   ["recv", c, 2, 1500], ["sleep", 20], ["send", c, ka, 0], ["sleep", 20],
+                   ["close", c], ["recv_eof", c, 800], ["fullclose", c], ["sleep", 30]]
+        return {"id": self.sid, "local_as": 65001, "remote_as": 65000, "local_id": 0x0A000001, "hold": self.local,
+                "passive": self.direction == "in", "idle_hold_ms": 60, "connect_retry_ms": 300, "caps": [], "on_open": None,
+                "handler": [], "est_writes": [], "steps": st}
+
+    def model_case(self):
+        return None
+
+    def check(self, r):
+        bad = []
+        long_hold = 240 * 10 ** 9
+        sessions = []
+        for ev in r["events"]:
+            if ev["kind"] == "t.hold":
+                ns = int(ev["args"][1])
+                if ns == long_hold:
+                    sessions.append([])
+                elif ns >= 0 and sessions:
+                    sessions[-1].append(ns)
+        for k, (arms, rh) in enumerate(zip(sessions, self.remote_holds)):
+            want = min(self.local, rh) * 10 ** 9
+            wrong = [a for a in arms if a != want]
+            if want == 0 and arms:
+                bad.append("session %d: hold time in force is 0 (local %d, received %d) but the hold timer was armed with %d ns" % (k + 1, self.local, rh, arms[0]))
+            elif wrong:
+                bad.append("session %d: hold timer armed with %d s, the hold time in force is min(local %d, received %d) = %d s"
+                           % (k + 1, wrong[0] // 10 ** 9, self.local, rh, want // 10 ** 9))
+        if len(sessions) < len(self.remote_holds):
+            bad.append("only %d of %d sessions sent an OPEN" % (len(sessions), len(self.remote_holds)))
+        return bad
+
+
 def timer_judge(c, e, o, r):
     """property clauses on the implementation's timer operations alone"""
     bad = []
@@ -175,6 +225,9 @@ def timer_judge(c, e, o, r):
 def sys_part(tier, rng, rep, replay):
     tcs = timer_convs(rng, tier)
     covt = sysrun.run_convs(PID, tcs, rep, keys=("hold_arms", "ka_arms_pre", "cbs"), extra_check=timer_judge, par=32)
+    per = [HoldPerSession(700 + k, d, L, rh) for k, (d, L, rh) in enumerate(
+        (("out", 9, (3, 9, 30)), ("out", 90, (0, 30, 90)), ("out", 30, (90, 3, 0, 30)), ("in", 9, (3, 9)), ("out", 0, (90, 0))))]
+    covp = sysrun.run_convs(PID, per, rep, extra_check=lambda c, e, o, r: c.check(r), par=8)
     cs = convs(rng, tier)
     # wire/cbs are timing dependent (periodic keepalives); compare the handshake prefix and the returns
     cov = sysrun.run_convs(PID, cs, rep, keys=(), extra_check=timing_check, par=64)
@@ -183,6 +236,8 @@ def sys_part(tier, rng, rep, replay):
     cov["evaluations"] = cov.get("evaluations", 0) + covt.get("evaluations", 0)
     cov["distinct_nontrivial"] = cov.get("distinct_nontrivial", 0) + covt.get("distinct_nontrivial", 0)
     cov["timer_operation_sessions"] = covt.get("evaluations", 0)
+    cov["hold_per_session_scenarios"] = covp.get("evaluations", 0)
+    cov["evaluations"] = cov.get("evaluations", 0) + covp.get("evaluations", 0)
     return cov
 
 
